@@ -24,6 +24,9 @@ TRUSTED_C = [
     "comparison callbacks that raise, size_t wrap-around of size/modification_count, malloc failure paths",
     "Children are contained in their parent node in the model; use-after-free of node memory and the allocation protocol of "
     "subclass instances are covered only by the subprocess exit status / ASan runs",
+    "Node blocks: the model proves the accounting of node_destroy's free log (C/NodeMem.v: each node freed once, after its subtree; "
+    "nodes = blocks handed out); the code is tied to it only when /repo carries the counter hook build/c_nodes_hook.diff "
+    "(oracle node-memory of harness/c/c_harness.py, silent otherwise); temporary split arrays (PyMem_Malloc) have no model counterpart",
 ]
 
 
